@@ -1,3 +1,3 @@
 import page_common
 A = page_common.pairs()
-PAIRS = [A[k] for k in ("page_malloc", "free_block_local", "set_in_full", "set_has_aligned", "unfull", "to_full", "malloc_generic")] + page_common.extend_pairs()
+PAIRS = [A[k] for k in ("page_malloc", "free_block_local", "set_in_full", "set_has_aligned", "unfull", "to_full")] + page_common.malloc_generic_pairs() + page_common.extend_pairs()
